@@ -349,6 +349,9 @@ class Exec:
             # read of a local that is not bound on this path: UnboundLocalError, must be unreachable
             self.oblige(p, f'unreachable:UnboundLocalError({e.id})@{e.lineno}', BoolVal(False), e.lineno)
             raise PathDead()
+        if getattr(self, "const_finder", None) and e.id.lstrip("_").isupper():
+            v = self.const_finder(self.module, e.id)
+            return StrV(v) if isinstance(v, str) else IntV(IntVal(v)) if isinstance(v, int) and not isinstance(v, bool) else PyV(v)
         raise Unsupported(f'name {e.id}@{e.lineno}')
 
     def ev_List(self, e, p):
